@@ -38,7 +38,10 @@ func (P) Rule() string {
 		"with the snapshot bytes, offsets, the three reader sections and the Decode reader compared with the Lean model, and re-parsed " +
 		"with http.ReadRequest/ReadResponse against an untouched twin, and (b) run as a twin experiment through har.Logger (4 post-data " +
 		"x 4 body options), marbl.Modifier, martianlog.Logger (headersOnly x decode) and a bare snapshot, with and without " +
-		"skip-logging, comparing Write() output and struct fields of the logged message with its unlogged twin; bodies 0..64 KiB quick, " +
+		"skip-logging, comparing Write() output and struct fields of the logged message with its unlogged twin whether or not the logger " +
+		"returned an error (one twin message in four, and 68 directed cases, carry a body that does not parse as its declared urlencoded / " +
+		"multipart Content-Type or does not decode as its gzip / deflate Content-Encoding; error return and record presence are compared " +
+		"with the model given the trusted parsers' verdicts); bodies 0..64 KiB quick, " +
 		"0..2 MiB thorough; distinct by hash of the op list; non-trivial when the case has a body-carrying message and at least one " +
 		"twin op that produced a record"
 }
@@ -204,7 +207,9 @@ func (e *ex) Do(op string) core.Result {
 	case "decode":
 		return e.decode(t)
 	case "twin":
-		return twin(t)
+		return twin(t, false)
+	case "twinx":
+		return twin(t, true)
 	}
 	return core.Result{Impl: "bad-op"}
 }
@@ -395,14 +400,26 @@ func harOpt(post bool, spec string) har.Option {
 func HarOpt(post bool, spec string) har.Option { return harOpt(post, spec) }
 
 // twin <logger> <o1> <o2> <skiplog> <mode> M...
-func twin(t []string) core.Result {
-	if len(t) != 6+msggen.NTok {
+// twinx <logger> <o1> <o2> <skiplog> <mode> <trusted> M...: the same experiment; the op carries the
+// verdicts of the trusted parsers / decompressors on the body (TrustedTok), with which the model
+// also predicts whether the logger returns an error and whether it recorded anything then.
+func twin(t []string, x bool) core.Result {
+	n0 := 6
+	if x {
+		n0 = 7
+	}
+	if len(t) != n0+msggen.NTok {
 		return core.Result{Impl: "bad-op"}
 	}
 	logger, o1, o2, skiplog, mode := t[1], t[2], t[3], t[4] == "1", t[5]
-	a, ok := msggen.FromTokens(t[6:])
+	a, ok := msggen.FromTokens(t[n0:])
 	if !ok {
 		return core.Result{Impl: "bad-op"}
+	}
+	if x && t[6] != TrustedTok(a) {
+		// the parameter of the model must be the trusted parsers' verdict on THIS body; a wrong
+		// premise shows as a divergence from the model's line
+		return core.Result{Impl: "trusted-mismatch " + TrustedTok(a)}
 	}
 	ctxReq := msggen.DummyReq()
 	var reqA, reqB *http.Request
@@ -525,6 +542,12 @@ func twin(t []string) core.Result {
 	finish()
 	core.Count("twin:" + logger)
 	impl := fmt.Sprintf("same rec=%d", rec)
+	if x {
+		impl += fmt.Sprintf(" err=%d", map[bool]int{false: 0, true: 1}[modErr != nil])
+	}
+	if modErr != nil {
+		core.Count("twin:logger-error:" + logger)
+	}
 	if d := forwardedDiff(a.Req, outA.Bytes(), outB.Bytes(), werrA, werrB); d != "" {
 		r := fail("c15:forwarded-differs:"+logger, "forwarded message differs from unlogged twin: %s", d)
 		r.Impl = "differs"
@@ -540,7 +563,7 @@ func twin(t []string) core.Result {
 		r.Impl = impl
 		return r
 	}
-	if modErr != nil {
+	if modErr != nil && !x {
 		// the logger gave up with an error (undecodable body, malformed form/multipart): whether
 		// a record exists then depends on the trusted decoders; oracle-only
 		core.Count("twin:logger-error")
